@@ -298,6 +298,11 @@ pub fn run(req: &RunRequest) -> Value {
             id_version: 0,
         });
         cluster.features.metadata_id_ext = plan.md_ext;
+        // 1 in 3 multi-node runs with the extension: one node does not offer it (rolling
+        // upgrade) - what the client may ask of a node depends on the connection.
+        if plan.md_ext && plan.nodes >= 2 && tape::chance("c14:mixed_md_ext", 1, 3) {
+            cluster.features.metadata_id_ext_except = vec![tape::choose("c14:node_without_md_ext", plan.nodes as u64) as usize];
+        }
         cluster.features.metadata_despite_skip_permille = [0, 250][tape::choose("c14:md_despite_skip", 2) as usize];
         cluster.think_min = 0;
         cluster.think_max = [MS, 20 * MS][tape::choose("c14:think", 2) as usize];
@@ -803,7 +808,10 @@ async fn main(plan: Plan) -> Outcome {
             }
         }
     }
-    if final_ok && plan.md_ext {
+    // (Not in a cluster where some node lacks the extension: executions that happen to run
+    // there teach the statement nothing, so "after quiescence" does not imply "caught up".)
+    let mixed_cluster = !world::world().cluster.features.metadata_id_ext_except.is_empty();
+    if final_ok && plan.md_ext && !mixed_cluster {
         if let (Some(last), Some(latest)) = (
             execs.iter().rev().find(|e| e.marker == Some(mq)),
             announced.last(),
@@ -880,8 +888,18 @@ async fn main(plan: Plan) -> Outcome {
                 continue;
             }
         }
+        let conn_ext = world::world().conns[last.conn].cql.metadata_id_ext;
         let admissible = if with_metadata {
             true
+        } else if !conn_ext && !plan.use_cached {
+            // Neither the extension (on this connection) nor the caller's opt-in allows
+            // the client to ask for rows without their metadata: if it did, it answers
+            // for decoding them right whatever the node encoded.
+            true
+        } else if !conn_ext && mixed_cluster {
+            // Opted-in decoding with cached metadata on a connection without the extension:
+            // what other nodes announced (to other statement objects) does not reach it.
+            false
         } else {
             // Omitted as requested: decoded with what was most recently announced.
             // Admissible if the encoding version was announced, with no other
@@ -936,11 +954,17 @@ async fn main(plan: Plan) -> Outcome {
             out.violation(
                 "c14.rows_decoded_wrongly",
                 format!(
-                    "marker {} (kind {}): server encoded version {version} (metadata sent: {with_metadata}) but the caller decoded {:?}, expected {:?}",
+                    "marker {} (kind {}): server encoded version {version} (metadata sent: {with_metadata}) but the caller decoded {:?}, expected {:?}; its requests (conn, node, metadata-id extension on that connection, presented id, answer): {:?}; announcements (ms, version): {:?}",
                     o.marker,
                     o.kind,
                     rows.first(),
-                    expected.first()
+                    expected.first(),
+                    execs
+                        .iter()
+                        .filter(|e| e.marker == Some(o.marker))
+                        .map(|e| (e.conn, e.node, world::world().conns[e.conn].cql.metadata_id_ext, e.presented_md_id.as_ref().map(|i| i.iter().take(2).map(|b| format!("{b:02x}")).collect::<String>()), format!("{:?}", e.answer)))
+                        .collect::<Vec<_>>(),
+                    announced.iter().map(|a| (a.0 / MS, a.1)).collect::<Vec<_>>()
                 ),
             );
         }
